@@ -11,7 +11,7 @@ use ark_poly_commit::{LabeledCommitment, LabeledPolynomial, PCCommitterKey, Poly
 use ark_serialize::CanonicalDeserialize;
 use ark_std::rand::Rng;
 
-pub const VERIFIER_KINDS: &[&str] = &["prover-other-trim", "bound-mislabelled", "bound-mislabelled-unenforced", "bound-mislabelled-both", "bound-label-dropped", "shifted-dropped", "shifted-swapped", "shifted-other-bound", "unbounded-gets-label"];
+pub const VERIFIER_KINDS: &[&str] = &["prover-other-trim", "bound-mislabelled", "bound-mislabelled-unenforced", "bound-mislabelled-both", "bound-label-dropped", "shifted-dropped", "shifted-swapped", "shifted-exchanged", "shifted-other-bound", "unbounded-gets-label"];
 pub const PROVER_KINDS: &[&str] = &["commit-degree-exceeds-bound", "commit-bound-not-enforced", "commit-no-bounds-in-key", "commit-degree-exceeds-supported", "commit-bound-above-supported", "open-degree-exceeds-bound", "open-bound-not-enforced"];
 
 pub fn generate(run_seed: u64) -> Scenario {
@@ -110,6 +110,8 @@ pub fn run<S: Scheme>(scn: &Scenario, log: &EventLog) -> RunResult {
             let mine: LabeledCommitment<Comm<S>> = sess.verifier.comms.iter().find(|c| c.label() == label).unwrap().clone();
             let mut rng = SimRng::new(scn.seed, "byzantine", fi as u64);
             let mut bad_claim: Option<Claim<S>> = None;
+            // a second commitment replaced together with the first (shifted-exchanged)
+            let mut second: Option<LabeledCommitment<Comm<S>>> = None;
             // the faulted commitment as the verifier will see it
             let faulted: Option<LabeledCommitment<Comm<S>>> = match (f.kind.as_str(), dprime) {
                 ("bound-mislabelled", Some(dp)) | ("bound-mislabelled-both", Some(dp)) => {
@@ -194,6 +196,22 @@ pub fn run<S: Scheme>(scn: &Scenario, log: &EventLog) -> RunResult {
                         S::comm_with_shifted_of(mine.commitment(), oc.commitment()).filter(|c| to_bytes(c, ark_serialize::Compress::Yes) != to_bytes(mine.commitment(), ark_serialize::Compress::Yes)).map(|c| relabel::<S>(&mine, c, Some(dp)))
                     }
                 }
+                ("shifted-exchanged", Some(dp)) => {
+                    // the degree-bound parts of two bounded polynomials of this operation change places
+                    // (each alone is an honest group element of the transcript; only their sum is unchanged)
+                    let others: Vec<usize> = (0..scn.polys.len()).filter(|&q| q != p && scn.polys[q].degree_bound.is_some() && op_mentions(op, q)).collect();
+                    if others.is_empty() { None } else {
+                        let q = others[f.aux % others.len()];
+                        let oc = sess.verifier.comms.iter().find(|c| c.label() == &scn.polys[q].label).unwrap().clone();
+                        match (S::comm_with_shifted_of(mine.commitment(), oc.commitment()), S::comm_with_shifted_of(oc.commitment(), mine.commitment())) {
+                            (Some(a), Some(b)) if to_bytes(&a, ark_serialize::Compress::Yes) != to_bytes(mine.commitment(), ark_serialize::Compress::Yes) => {
+                                second = Some(relabel::<S>(&oc, b, scn.polys[q].degree_bound));
+                                Some(relabel::<S>(&mine, a, Some(dp)))
+                            }
+                            _ => None,
+                        }
+                    }
+                }
                 ("shifted-other-bound", Some(dp)) => {
                     let deg = scn.polys[p].degree;
                     let others: Vec<usize> = all_bounds.iter().copied().filter(|d| *d != dp && *d >= deg).collect();
@@ -234,7 +252,7 @@ pub fn run<S: Scheme>(scn: &Scenario, log: &EventLog) -> RunResult {
             let constant = spec.degree == 0;
             let sonic_zero_shift = fam == Family::Sonic
                 && ((f.kind == "bound-label-dropped" && dprime == Some(cfg.max_degree)) || (f.kind == "unbounded-gets-label" && faulted.degree_bound() == Some(cfg.max_degree)));
-            if zero_nonhiding {
+            if zero_nonhiding && second.is_none() {
                 // identity commitment under every bound
                 res.stats.probe("exempt:zero-polynomial");
                 continue;
@@ -250,7 +268,7 @@ pub fn run<S: Scheme>(scn: &Scenario, log: &EventLog) -> RunResult {
                 continue;
             }
             res.stats.fire(&f.kind);
-            let list: Vec<LabeledCommitment<Comm<S>>> = sess.verifier.comms.iter().map(|c| if c.label() == label { faulted.clone() } else { c.clone() }).collect();
+            let list: Vec<LabeledCommitment<Comm<S>>> = sess.verifier.comms.iter().map(|c| if c.label() == label { faulted.clone() } else if second.as_ref().map_or(false, |s| s.label() == c.label()) { second.clone().unwrap() } else { c.clone() }).collect();
             let mut sp = sess.verifier.sponge.fork();
             let mut vr = SimRng::new(scn.seed, "verifier-scratch", 4000 + fi as u64);
             sess.stats.checks += 1;
